@@ -584,7 +584,7 @@ fn n_sets(n: u64, max: usize) -> u64 {
     total
 }
 
-fn sweep(space: &Space, max_set: usize, rep: &mut Report) {
+fn sweep(space: &Space, min_set: usize, max_set: usize, rep: &mut Report) {
     let t0 = std::time::Instant::now();
     let universe = space.vrps();
     let routes = space.prefixes();
@@ -610,6 +610,9 @@ fn sweep(space: &Space, max_set: usize, rep: &mut Report) {
         let mut nsets = 0u64;
         let mut viols: BTreeMap<String, (Violation, u64)> = BTreeMap::new();
         let mut body = |idx: &[usize]| {
+            if idx.len() < min_set {
+                return; // smaller sets are covered by another sweep
+            }
             nsets += 1;
             let vrps: Vec<Vrp> = idx.iter().map(|&j| universe[j]).collect();
             let t = build_table(&vrps, &caches);
@@ -666,7 +669,7 @@ fn sweep(space: &Space, max_set: usize, rep: &mut Report) {
         by_state[((c >> 2) & 3) as usize] += cnt;
     }
     let sets = sets_total.load(Ordering::Relaxed);
-    let expected_sets = n_sets(n as u64, max_set);
+    let expected_sets = n_sets(n as u64, max_set) - if min_set > 0 { n_sets(n as u64, min_set - 1) } else { 0 };
     if sets != expected_sets {
         rep.machinery_error = Some(format!("{}: enumerated {} sets, expected {}", space.name(), sets, expected_sets));
     }
@@ -675,11 +678,12 @@ fn sweep(space: &Space, max_set: usize, rep: &mut Report) {
     local.add("expected_valid", by_state[St::Valid as usize]);
     local.add("expected_invalid", by_state[St::Invalid as usize]);
     let line = format!(
-        "sweep {}: vrp universe={} routes={} derivations={} sets(size<={})={} validations={} related={} outcome-classes={} expected NotFound/Valid/Invalid={}/{}/{} violations(sigs)={} wall={:.1}s",
+        "sweep {}: vrp universe={} routes={} derivations={} sets({}<=size<={})={} validations={} related={} outcome-classes={} expected NotFound/Valid/Invalid={}/{}/{} violations(sigs)={} wall={:.1}s",
         space.name(),
         n,
         routes.len(),
         derivs.len(),
+        min_set,
         max_set,
         sets,
         local.evaluations,
@@ -717,6 +721,10 @@ struct Maint {
     /// states (transitions into them) in which state() deviates from GoBGP's counts — observation only
     count_deviation: AtomicU64,
     count_checked: AtomicU64,
+    /// check results per (table content in trie/entry order, reference set, op kind).
+    /// The check is a pure function of that key, so sharing results between the
+    /// histories that pass through the same state changes nothing but the cost.
+    memo: std::sync::RwLock<std::collections::HashMap<u128, Arc<Vec<(String, String)>>>>,
 }
 
 struct MSys {
@@ -727,32 +735,43 @@ struct MSys {
     broken: BTreeSet<String>,
 }
 
-fn maint_model() -> Maint {
+fn maint_model(thorough: bool) -> Maint {
     let p = |s: &str| Pfx::parse(s).unwrap();
     let vrps = vec![
-        // A and B share the trie key, differ in max-length and AS
+        // A, B and E share the trie key; every pair of them differs in exactly one
+        // or in both of (max-length, AS), so a comparison that ignores a key field shows
         (p("10.0.0.0/8"), 16, 65001),
         (p("10.0.0.0/8"), 24, 65002),
-        // C: more specific of A/B
+        // C: more specific of A/B/E
         (p("10.1.0.0/16"), 16, 65001),
         // D: the other family
         (p("2001:db8::/32"), 48, 65001),
+        // E: max-length of A, AS of B
+        (p("10.0.0.0/8"), 16, 65002),
     ];
-    let mut ops = Vec::new();
+    // every VRP can be announced by both caches (duplicates across caches);
+    // in the quick tier E only by c1 to keep the state space small
+    let mut pairs: Vec<(u8, usize)> = Vec::new();
     for c in 0..2u8 {
         for v in 0..vrps.len() {
-            ops.push(Op::Insert(c, v));
+            if v == 4 && c == 1 && !thorough && std::env::var("C12_SMALL").is_ok() {
+                continue;
+            }
+            pairs.push((c, v));
         }
     }
-    for c in 0..2u8 {
-        for v in 0..vrps.len() {
-            ops.push(Op::Remove(c, v));
-        }
+    let mut ops = Vec::new();
+    for &(c, v) in &pairs {
+        ops.push(Op::Insert(c, v));
+    }
+    for &(c, v) in &pairs {
+        ops.push(Op::Remove(c, v));
     }
     for c in 0..2u8 {
         ops.push(Op::Reset(c));
         ops.push(Op::Restart(c));
     }
+    let keep = ["seq-65001", "seq-65002", "as-set-tail", "empty-path"];
     Maint {
         ops,
         vrps,
@@ -770,10 +789,11 @@ fn maint_model() -> Maint {
             p("2001:db8:1::/49"),
             p("2001:db8::/31"),
         ],
-        derivs: derivations(),
+        derivs: derivations().into_iter().filter(|d| keep.contains(&d.name)).collect(),
         src: speaker(),
         count_deviation: AtomicU64::new(0),
         count_checked: AtomicU64::new(0),
+        memo: Default::default(),
     }
 }
 
@@ -867,7 +887,7 @@ impl Maint {
 impl Model for Maint {
     type Sys = MSys;
     fn name(&self) -> String {
-        "c12-maint".into()
+        format!("c12-maint{}", self.ops.len())
     }
     fn n_ops(&self) -> usize {
         self.ops.len()
@@ -916,12 +936,21 @@ impl Model for Maint {
                 sys.model.retain(|m| m.0 != c);
             }
         }
-        let mut cur = Vec::new();
-        self.check(sys, kind, &mut cur);
+        let key = bfs::hash128(format!("{:?}|{:?}|{kind}", self.dump(sys), sys.model).as_bytes());
+        let cached = self.memo.read().unwrap().get(&key).cloned();
+        let cur: Arc<Vec<(String, String)>> = match cached {
+            Some(c) => c,
+            None => {
+                let mut cur = Vec::new();
+                self.check(sys, kind, &mut cur);
+                let cur = Arc::new(cur);
+                self.memo.write().unwrap().entry(key).or_insert(cur).clone()
+            }
+        };
         // a clause is reported on the step that breaks it, not on later states inheriting the damage;
         // validation clauses (state/lists/panic) are stateless and reported wherever they show
         let mut now = BTreeSet::new();
-        for (sig, what) in cur {
+        for (sig, what) in cur.iter().cloned() {
             let clause = sig.split('/').nth(1).unwrap_or("").to_string();
             let sticky = clause == "set" || clause == "counts";
             if !(sticky && sys.broken.contains(&clause)) {
@@ -999,7 +1028,8 @@ fn replay_val(case: &str, rep: &mut Report) {
 
 pub fn run(replay: Option<&str>) -> Report {
     let mut rep = Report::new("C12", "hx-c12");
-    let maint = maint_model();
+    // replay cases carry op indices: the model name encodes which op list they refer to
+    let maint = maint_model(rep.thorough());
     if let Some(case) = replay {
         if case.starts_with("val#") {
             replay_val(case, &mut rep);
@@ -1009,8 +1039,14 @@ pub fn run(replay: Option<&str>) -> Report {
             rep.machinery_error = Some("bad replay case".into());
             return rep;
         };
-        if name != maint.name() || hist.iter().any(|&o| o as usize >= maint.n_ops()) {
-            rep.machinery_error = Some(format!("unknown model / op in {case:?}"));
+        // the op list depends on the tier the case was found in; pick the matching model
+        let maint = [maint, maint_model(true), maint_model(false)].into_iter().find(|m| m.name() == name);
+        let Some(maint) = maint else {
+            rep.machinery_error = Some(format!("unknown model in {case:?}"));
+            return rep;
+        };
+        if hist.iter().any(|&o| o as usize >= maint.n_ops()) {
+            rep.machinery_error = Some(format!("unknown op in {case:?}"));
             return rep;
         }
         eprintln!("replay {}", bfs::render(&maint, &hist));
@@ -1030,20 +1066,20 @@ pub fn run(replay: Option<&str>) -> Report {
          {{prefix of length offset..offset+w, every value}} x {{max-len in len..offset+w and the family maximum}} x AS {{0,65001,65002}} x 2 caches, \
          crossed with every route prefix of the space and {} origin derivations; {}every case is a distinct input by construction \
          (strictly increasing index tuples over a duplicate-free universe, checked); non-trivial = at least one VRP of the set covers, equals or is more specific than the route. \
-         (b) BFS to fixpoint over insert/remove/reset/restart of 4 VRPs x 2 caches on a real RpkiTable; state = history, \
+         (b) BFS to fixpoint over insert/remove/reset/restart of 5 VRPs (three on one trie key) x 2 caches on a real RpkiTable; state = history, \
          fingerprint = iter() in trie/entry order + reference set; non-trivial = distinct canonical table state other than the empty one",
         derivations().len(),
-        if thorough { "thorough adds sets of size 3 over w=3 spaces; " } else { "" },
+        if thorough { "thorough adds all sets of size exactly 3 over w=3 spaces; " } else { "" },
     );
     for s in &spaces {
-        sweep(s, 2, &mut rep);
+        sweep(s, 0, 2, &mut rep);
         if rep.machinery_error.is_some() {
             return rep;
         }
     }
     if thorough {
         for s in spaces_all(3).into_iter().take(2) {
-            sweep(&s, 3, &mut rep);
+            sweep(&s, 3, 3, &mut rep);
             if rep.machinery_error.is_some() {
                 return rep;
             }
@@ -1070,7 +1106,7 @@ pub fn run(replay: Option<&str>) -> Report {
         rep.caps_hit.push("c12-maint: BFS did not reach the fixpoint".into());
     }
     rep.notes.push(format!(
-        "c12-maint: state(addr) compared with GoBGP's (records = VRPs of the cache, prefixes = distinct prefixes, either naming) on {} (transition, cache, family) observations: {} deviate — observation only, the statement does not fix these counters; asserted is only that one counter equals the cache's VRP count",
+        "c12-maint: state(addr) compared with GoBGP's (records = VRPs of the cache, prefixes = distinct prefixes, either naming) on {} (distinct table state, op kind, cache, family) observations: {} deviate — observation only, the statement does not fix these counters; asserted is only that one counter equals the cache's VRP count",
         maint.count_checked.load(Ordering::Relaxed),
         maint.count_deviation.load(Ordering::Relaxed)
     ));
